@@ -69,6 +69,16 @@ var c19Files = map[string]string{
 	"forinc.twig":    "{% for i in z %}{% include 'nofile.twig' %}{% endfor %}",
 	"inmatch.twig":   "{% if 1 in z %}y{% endif %}{{ 2 in [1, 2, 3] ? 'a' : 'b' }}{{ 'a' in {'k': 'a', 'j': 'b'} ? 1 : 0 }}{{ 9 not in [9, 8, 7] ? 1 : 0 }}",
 	"fornested.twig": "{% for i in [1, 2] %}{% for j in [1, 2, 3] %}{% if j in [1, 2, 3] %}{{ j }}{% endif %}{% endfor %}{% endfor %}{% for q in 1..5 %}{{ q|nosuchfilter }}{% endfor %}",
+	// every operator and every built-in filter once (the first use of a feature in a process must not leave a
+	// helper behind either); a pattern that does not compile
+	"allops.twig": "{{ 1 + 2 - 3 * 4 / 5 // 6 % 7 ** 2 }}{{ 'a' ~ 'b' }}{{ 1 == 1 and 2 != 3 or 4 < 5 }}{{ 1 <= 2 }}{{ 3 > 2 }}{{ 3 >= 2 }}{{ not x }}{{ 1 in [1] }}{{ 1 not in [2] }}" +
+		"{{ 'abc' starts with 'a' }}{{ 'abc' ends with 'c' }}{{ 'abc' matches '^a.c$' }}{{ 'x1' matches '[0-9]+' }}{{ 1..3|length }}{{ 5 b-and 3 }}{{ 5 b-or 3 }}{{ 5 b-xor 3 }}" +
+		"{{ x ? 'a' : 'b' }}{{ \"i#{1 + 1}\" }}{{ [1, 2][0] }}{{ {'k': 'v'}.k }}{{ -1 }}{{ +1 }}",
+	"badpattern.twig": "a{{ 'abc' matches '([' }}b",
+	"allfilters.twig": "{{ -1|abs }}{{ x|default('d') }}{{ [1, 2, 3]|batch(2)|length }}{{ 'ab'|capitalize }}{{ 'now'|date('Y')|length }}{{ [1]|first }}{{ 'a%s'|format('b') }}{{ [1, 2]|join(',') }}" +
+		"{{ [1]|json_encode }}{{ {'k': 1}|keys|join }}{{ [1]|last }}{{ 'abc'|length }}{{ 'AB'|lower }}{{ [1]|merge([2])|length }}{{ 'a\nb'|nl2br }}{{ 1234.5|number_format }}{{ '<b>'|raw }}" +
+		"{{ 'ab'|replace({'a': 'b'}) }}{{ 'ab'|reverse }}{{ 2.5|round }}{{ 'abc'|slice(1, 1) }}{{ [2, 1]|sort|join }}{{ 'a b'|split(' ')|length }}{{ '<b>x</b>'|striptags }}{{ 'a b'|title }}{{ ' a '|trim }}" +
+		"{{ 'ab'|upper }}{{ 'a b'|url_encode }}{{ 'x'|convert_encoding('UTF-8', 'ISO-8859-1') }}{{ '<'|escape }}{{ '<'|escape('js') }}",
 	// reached through symbolic links (created by the setup below)
 	"inclink.twig": "a{% include 'link.twig' %}{% include 'linkbad.twig' %}b",
 }
@@ -136,7 +146,7 @@ func c19Ops() []c19Op {
 		add("parse/fs/"+n, func(e *c19Envs) error { _, err := e.fs.Parse(n); return err })
 		add("safe/fs/"+n, func(e *c19Envs) error { return c19ExecSafe(e.fs, n) })
 	}
-	for _, n := range []string{"valid.twig", "child.twig", "syntax.twig", "incbad.twig", "nofile.twig", "lexerr.twig"} {
+	for _, n := range []string{"valid.twig", "child.twig", "syntax.twig", "incbad.twig", "nofile.twig", "lexerr.twig", "allops.twig", "allfilters.twig", "badpattern.twig"} {
 		n := n
 		add("exec/twigfs/"+n, func(e *c19Envs) error { return c19Exec(e.twfs, n) })
 		add("parse/mem/"+n, func(e *c19Envs) error { _, err := e.mem.Parse(n); return err })
@@ -149,6 +159,15 @@ func c19Ops() []c19Op {
 			src := strings.Join(toks[:i], "") + frag + strings.Join(toks[i:], "")
 			add(fmt.Sprintf("exec/str/inject@%d:%s", i, frag), func(e *c19Envs) error { return c19Exec(e.str, src) })
 		}
+	}
+	// every kind of malformed source (each hits a different error site of the parser; some of those build their error
+	// with errors.New / fmt.Errorf instead of a typed parse error), alone and followed by a long remainder
+	for i, b := range c17Broken {
+		b := b
+		add(fmt.Sprintf("exec/str/broken#%d", i), func(e *c19Envs) error { return c19Exec(e.str, b) })
+		long := b + strings.Repeat("{{ a }} text {% if a %}x{% endif %}", 40)
+		add(fmt.Sprintf("exec/str/broken#%d+tail", i), func(e *c19Envs) error { return c19Exec(e.str, long) })
+		add(fmt.Sprintf("parse/str/broken#%d+tail", i), func(e *c19Envs) error { _, err := e.str.Parse(long); return err })
 	}
 	// an early error followed by a long remainder: whatever the lexer still has to deliver after the parser gave up
 	tails := map[string]func(n int) string{
